@@ -251,6 +251,8 @@ def eigh_contract(A, *a, **k):
     s = e.fresh('eigv')
     e.trace.append(('a', s * s == 1))
     return core.obj_array([A[0, 0]]), core.obj_array([Sym(s)], (1, 1))
+  if d == 2:
+    return _eigh2(A, e)
   w = [e.fresh('eigw') for _ in range(d)]
   V = [[e.fresh('eigV') for _ in range(d)] for _ in range(d)]
   cs = []
@@ -282,6 +284,27 @@ def _conc(A):
   if isinstance(A, _np.ndarray) and A.dtype == object and not has_sym(A):
     return _np.asarray(A, dtype=float)
   return A
+
+
+def _eigh2(A, e):
+  """2x2 contract with every orthogonal V parametrised exactly: V = [[c, -g*s], [s, g*c]], c^2 + s^2 = 1,
+  g = +-1 (rotation or reflection); spectrum in closed form m -+ r (r the memoised root).  Equivalent to
+  'w ascending, V^T V = I, V diag(w) V^T = A' but with two unknowns instead of six."""
+  a, b, c_ = term_of(A[0, 0], True), term_of(A[1, 0], True), term_of(A[1, 1], True)
+  rs = sym_sqrt(Sym(((a - c_) / 2) * ((a - c_) / 2) + b * b))
+  r = term_of(rs, True)
+  w0, w1 = e.fresh('eigw'), e.fresh('eigw')
+  c, s, g = e.fresh('eigc'), e.fresh('eigs'), e.fresh('eigg')
+  V = [[c, -g * s], [s, g * c]]
+  cs = [w0 == (a + c_) / 2 - r, w1 == (a + c_) / 2 + r, c * c + s * s == 1, g * g == 1]
+  # V diag(w) V^T = A  (the lower triangle is what LAPACK reads)
+  cs.append(c * c * w0 + s * s * w1 == a)
+  cs.append(c * s * (w0 - w1) == b)
+  cs.append(s * s * w0 + c * c * w1 == c_)
+  e.trace.append(('a', z3.And(*cs)))
+  W = core.obj_array([Sym(w0), Sym(w1)])
+  Vm = core.obj_array([Sym(V[i][j]) for i in range(2) for j in range(2)], (2, 2))
+  return W, Vm
 
 
 def np_eigh(A, *a, **k):
